@@ -37,14 +37,36 @@
 //   invalid-length-rejected     verdict invalid-length => nothing beyond M0..Mk-1 reaches a handler.
 //                               CL together with TE: rejecting, or framing by TE alone, are both accepted
 //                               (RFC 9112 §6.1).
-//   terminates                  no feed loops (invalid-length family: every case runs in a forked child,
-//                               hang = 0.5 s of CPU time burnt, so the sig names the feature; elsewhere
-//                               vr::run_sharded's stall detection)
+//   terminates                  no feed loops.  Invalid-length family: every case runs in a forked child with
+//                               its own server; hang = the child stays inside ONE handleIncomingData call
+//                               while its CPU clock advances 0.5 s (load-independent), so the sig names the
+//                               feature (`hang:<reference verdict>`).  Elsewhere: vr::run_sharded's stall
+//                               detection (`terminates/hang`), with a heartbeat per feed in the cap family.
 //   no-exception-escapes        nothing is thrown out of handleIncomingData
 //   buffer-within-cap           SessionInfo::buffer never exceeds SessionInfo::MAX_BUFFER_SIZE
 //
+// SIGNATURES are derived from the failing case by the reference, never from the generator's intent:
+// the kind of difference (body:chunked-not-decoded | body:truncated | body:overrun | headers:<name> |
+// target:query | message-lost:after=<framing of the predecessor> | message-invented:<verdict>) plus the
+// framing of the affected message; for a finding absent from the unsplit feed additionally the region of
+// the stream the cut falls in (cut@header-terminator, cut@chunk-size-line|chunk-data, byte-at-a-time ...;
+// a failing pair of cuts is attributed to the single cut that already fails, if one does).  Only the
+// first lost message of a run is reported (later losses are consequences).
+//
+// FAMILIES (--families, default all; registry: part C15_server = ABC plain build, part
+// C15_server_hostile = DFE ASan+UBSan build):
+//   D invalid length information (33 streams, isolated children)     F never-terminated streams vs the cap
+//   A framing-exhaustive    B header-exhaustive    C pipelines of 2 and 3    E single-byte substitutions
+// Every stream: unsplit, every single cut, byte-at-a-time; every pair of cuts where the tier says so.
+//
 // The caps are compile-time constants of HttpServer::SessionInfo (not configurable), so the
 // never-terminated families run against the real 1 MiB buffer cap, in pieces of 64 KiB .. 509 B.
+//
+// Hypotheses (DESIGN.md C15) -- all four confirmed on the unchanged tree, see known_findings.jsonl:
+//   H-C15-1 chunk-size FFFFFFFFFFFFFFEC wraps `pos += chunkSize + 2` -> handleIncomingData never returns
+//   H-C15-2 chunked bodies reach handlers still chunk-encoded
+//   H-C15-3 stoull/stoul accept 5abc, +5, "5 ,6", -0, 0x5; the last of two different Content-Length wins
+//   H-C15-4 a trailer section cuts the request short; the leftover turns the next request into a 400
 #include "iora/network/http_server.hpp"
 #include "network/transport_test_seam.hpp"
 
@@ -320,6 +342,12 @@ struct Env
   std::vector<DMsg> recs;
   SessionId sid = 1000;
   static constexpr size_t CAP = HttpServer::SessionInfo::MAX_BUFFER_SIZE;
+  // shared with a supervising parent when this Env lives in an isolated child: [0] ticks on entry to
+  // and exit from every handleIncomingData call, [1] == 1 while inside one
+  volatile uint64_t *progress = nullptr;
+  // called after every feed of a long (cap family) run so that the supervisor's stall detection
+  // applies per feed, not per case
+  std::function<void()> heartbeat;
 
   Env()
   {
@@ -346,11 +374,14 @@ struct Env
 
   void quiesce()
   {
-    for (;;)
+    for (unsigned spins = 0;; ++spins)
     {
       if (srv._threadPool.getPendingTaskCount() == 0 && srv._threadPool._busyThreads.load() == 0)
         return;
-      sched_yield();
+      if (spins < 200)
+        sched_yield();
+      else
+        usleep(50); // do not burn the core the pool thread may need
     }
   }
 
@@ -376,7 +407,17 @@ struct Env
       ++out.feeds;
       try
       {
+        if (progress)
+        {
+          progress[1] = 1;
+          progress[0] = progress[0] + 1;
+        }
         srv.handleIncomingData(sid, reinterpret_cast<const std::uint8_t *>(s.data()) + off, len);
+        if (progress)
+        {
+          progress[1] = 0;
+          progress[0] = progress[0] + 1;
+        }
       }
       catch (const std::exception &e)
       {
@@ -392,6 +433,8 @@ struct Env
         return false;
       }
       quiesce();
+      if (heartbeat)
+        heartbeat();
       {
         std::lock_guard<std::mutex> l(srv._sessionMutex);
         auto it = srv._sessionInfo.find(sid);
@@ -726,19 +769,25 @@ double childCpuSeconds(pid_t pid)
   return ts.tv_sec + ts.tv_nsec * 1e-9;
 }
 
-// Runs one (stream, segmentation) in a forked child with its own fresh server.  A child that burns
-// `cpuLimit` seconds of CPU (a normal case needs milliseconds) or makes no exit within `wallLimit`
-// seconds is a hang; CPU time makes the verdict independent of machine load.
-CaseResult evalIsolated(const std::string &stream, const c15ref::Parse &ref, const Seg &seg, double cpuLimit = 0.5, double wallLimit = 8)
+// Runs one (stream, segmentation) in a forked child with its own fresh server.  Hang verdict: the
+// child stays inside ONE handleIncomingData call (progress word unchanged, in-feed flag set) while its
+// process CPU clock advances by `cpuLimit` seconds -- a normal call needs microseconds, and CPU time,
+// unlike wall time, does not grow when the machine is loaded.  Fallbacks: 10 s of CPU or 12 s of wall
+// time without any progress in any phase (a pool thread that loops, a deadlock).
+CaseResult evalIsolated(const std::string &stream, const c15ref::Parse &ref, const Seg &seg, double cpuLimit = 0.5)
 {
   CaseResult r;
   int fd[2];
-  if (pipe(fd) != 0)
+  volatile uint64_t *prog =
+    (volatile uint64_t *)mmap(nullptr, 4096, PROT_READ | PROT_WRITE, MAP_SHARED | MAP_ANONYMOUS, -1, 0);
+  if (pipe(fd) != 0 || prog == MAP_FAILED)
   {
     r.crash = true;
-    r.crashInfo = "pipe() failed";
+    r.crashInfo = "pipe()/mmap() failed";
     return r;
   }
+  prog[0] = 0;
+  prog[1] = 0;
   fflush(nullptr);
   pid_t p = fork();
   if (p == 0)
@@ -746,6 +795,7 @@ CaseResult evalIsolated(const std::string &stream, const c15ref::Parse &ref, con
     prctl(PR_SET_PDEATHSIG, SIGKILL);
     close(fd[0]);
     Env *env = new Env(); // never destroyed: the child _exit()s
+    env->progress = prog;
     CaseResult c = evalLocal(*env, stream, ref, seg);
     std::string b;
     uint32_t n = (uint32_t)c.findings.size();
@@ -768,13 +818,12 @@ CaseResult evalIsolated(const std::string &stream, const c15ref::Parse &ref, con
     _exit(0);
   }
   close(fd[1]);
-  double t0 = vr::now_s();
   int st = 0;
   std::string buf;
-  // poll: child exit / cpu budget
   fcntl(fd[0], F_SETFL, fcntl(fd[0], F_GETFL) | O_NONBLOCK);
-  bool done = false;
-  while (!done)
+  uint64_t lastTick = ~uint64_t(0);
+  double cpuAtTick = 0, wallAtTick = vr::now_s();
+  while (true)
   {
     char tmp[65536];
     ssize_t k;
@@ -785,19 +834,27 @@ CaseResult evalIsolated(const std::string &stream, const c15ref::Parse &ref, con
     {
       while ((k = read(fd[0], tmp, sizeof tmp)) > 0)
         buf.append(tmp, (size_t)k);
-      done = true;
       break;
     }
-    if (childCpuSeconds(p) > cpuLimit || vr::now_s() - t0 > wallLimit)
+    uint64_t tick = prog[0];
+    bool inFeed = prog[1] == 1;
+    double cpu = childCpuSeconds(p), wall = vr::now_s();
+    if (tick != lastTick)
+    {
+      lastTick = tick;
+      cpuAtTick = cpu;
+      wallAtTick = wall;
+    }
+    else if ((inFeed && cpu - cpuAtTick > cpuLimit) || cpu - cpuAtTick > 10.0 || wall - wallAtTick > 12.0)
     {
       kill(p, SIGKILL);
       waitpid(p, &st, 0);
       r.hang = true;
-      done = true;
       break;
     }
     usleep(500);
   }
+  munmap((void *)prog, 4096);
   close(fd[0]);
   if (r.hang)
     return r;
@@ -1186,7 +1243,22 @@ struct Explorer
   bool cacheIsolated = false;
   std::vector<Finding> cacheUnsplit;
 
-  Explorer(const vr::Args &a, const vr::Shard &s, vr::Report &rep) : args(a), sh(s), r(rep), thorough(a.thorough()) {}
+  std::string families; // which families this part enumerates: any of D F A B C E
+
+  Explorer(const vr::Args &a, const vr::Shard &s, vr::Report &rep)
+      : args(a), sh(s), r(rep), thorough(a.thorough()), families(a.get("families", "DFABCE"))
+  {
+  }
+  bool fam(char c) const { return families.find(c) != std::string::npos; }
+  // A stream of a family this part does not enumerate still enters the duplicate filter, so that the
+  // parts together evaluate every distinct stream exactly once.
+  void consider(char letter, const std::string &name, const std::string &w, int plan)
+  {
+    if (fam(letter))
+      stream(name, w, plan);
+    else
+      seen.insert(hash128(w));
+  }
 
   // per-stream statistics are kept by worker 0 only (a restarted incarnation continues after the case
   // its predecessor died in)
@@ -1468,7 +1540,10 @@ struct Explorer
         c15ref::Parse ref = c15ref::parseStream(s);
         std::string kase = "C15S1 fam=cap:" + std::string(c.name) + " seg=p" + std::to_string(pc) + "\n";
         sh.begin(idx, kase);
+        uint64_t myIdx = idx;
+        env.heartbeat = [this, myIdx, kase]() { sh.begin(myIdx, kase); };
         CaseResult cr = evalLocal(env, s, ref, Seg::pieces(pc));
+        env.heartbeat = nullptr;
         r.evaluations++;
         r.distinct_nontrivial++;
         account(cr);
@@ -1482,6 +1557,7 @@ struct Explorer
   {
     r.rule = "a case = (request byte stream, segmentation); non-trivial = the reference frames at least one message with a body or "
              "explicit framing, or more than one message, or the stream ends in something other than a complete message";
+    r.bounds["families_of_this_part"] = families + "  (D invalid-length, F caps, A framing-exhaustive, B header-exhaustive, C pipelines, E hostile substitutions)";
     r.bounds["methods"] = "GET POST HEAD";
     r.bounds["targets"] = "/ ; /a/b?x=1&y=2 ; /zz/r%20x";
     r.bounds["header_sets"] = "7 (case variants, no/extra OWS, HTAB, empty value, list values, repeated Via, decoy names, framing first/last)";
@@ -1500,10 +1576,16 @@ struct Explorer
     // ---- D: invalid length information (isolated children, specific hang attribution); first, so a
     //         deadline can never cut it ----
     for (auto &ic : invalidLengthFamily())
-      stream(std::string("invalid:") + ic.label, ic.stream, Basic, /*isolated=*/true);
+    {
+      if (fam('D'))
+        stream(std::string("invalid:") + ic.label, ic.stream, Basic, /*isolated=*/true);
+      else
+        seen.insert(hash128(ic.stream));
+    }
 
     // ---- F: caps ----
-    capFamily();
+    if (fam('F'))
+      capFamily();
 
     // ---- A: framing-exhaustive ----
     for (int mi = 0; mi < 3 && !stop; ++mi)
@@ -1514,7 +1596,7 @@ struct Explorer
             std::string w = buildRequest(kMethods[mi], "/", hs, body, f);
             selfCheck(w, kMethods[mi], "/", f.kind == Framing::None ? "" : body);
             bool pairs = thorough || (mi == 1 && hs == 0 && f.sizeFmt == 0);
-            stream("A", w, pairs ? Pairs : Basic);
+            consider('A', "A", w, pairs ? Pairs : Basic);
           }
     // ---- B: header-exhaustive ----
     std::vector<std::string> familyB;
@@ -1529,7 +1611,7 @@ struct Explorer
             std::string w = buildRequest(kMethods[mi], kTargets[ti], hs, bf.first, bf.second);
             selfCheck(w, kMethods[mi], kTargets[ti], bf.first);
             familyB.push_back(w);
-            stream("B", w, thorough ? Pairs : Basic);
+            consider('B', "B", w, thorough ? Pairs : Basic);
           }
         }
     // ---- C: pipelines ----
@@ -1539,16 +1621,19 @@ struct Explorer
       {
         std::string w = pipelineAtom(i, 0) + pipelineAtom(j, 1);
         pipes2.push_back(w);
-        stream("C2", w, thorough ? Pairs : Basic);
+        consider('C', "C2", w, thorough ? Pairs : Basic);
       }
     size_t n3 = thorough ? kAtoms : kQuickAtoms;
     for (size_t i = 0; i < n3 && !stop; ++i)
       for (size_t j = 0; j < n3; ++j)
         for (size_t k = 0; k < n3; ++k)
-          stream("C3", pipelineAtom(i, 0) + pipelineAtom(j, 1) + pipelineAtom(k, 2),
-                 thorough && i < kQuickAtoms && j < kQuickAtoms && k < kQuickAtoms ? Pairs : Basic);
+          consider('C', "C3", pipelineAtom(i, 0) + pipelineAtom(j, 1) + pipelineAtom(k, 2),
+                   thorough && i < kQuickAtoms && j < kQuickAtoms && k < kQuickAtoms ? Pairs : Basic);
     // ---- E: hostile single-byte substitutions ----
-    if (thorough)
+    if (!fam('E'))
+    {
+    }
+    else if (thorough)
     {
       for (auto &b : familyB)
         hostile(b, true);
@@ -1562,14 +1647,18 @@ struct Explorer
     }
     else
     {
-      // POST x target 1 x all header sets x 4 framings, and the 2-pipelines over the first 6 atoms
-      for (int hs = 0; hs < kHeaderSets; ++hs)
-      {
-        hostile(buildRequest("POST", kTargets[1], hs, "", Framing{}), true);
-        hostile(buildRequest("POST", kTargets[1], hs, "hello", clen()), true);
-        hostile(buildRequest("POST", kTargets[1], hs, "hello", chunked({2, 3}, 1, 1)), true);
-        hostile(buildRequest("POST", kTargets[1], hs, "hello", chunked({5})), true);
-      }
+      // POST x every target x every header set x 4 framings (also byte-at-a-time); the framing-exhaustive
+      // family for POST / header set 0 / hex sizes / body 'hello'; the 2-pipelines over the first 6 atoms
+      for (int ti = 0; ti < 3; ++ti)
+        for (int hs = 0; hs < kHeaderSets; ++hs)
+        {
+          hostile(buildRequest("POST", kTargets[ti], hs, "", Framing{}), true);
+          hostile(buildRequest("POST", kTargets[ti], hs, "hello", clen()), true);
+          hostile(buildRequest("POST", kTargets[ti], hs, "hello", chunked({2, 3}, 1, 1)), true);
+          hostile(buildRequest("POST", kTargets[ti], hs, "hello", chunked({5})), true);
+        }
+      for (auto &f : allFramings("hello", true))
+        hostile(buildRequest("POST", "/", 0, "hello", f), false);
       for (size_t i = 0; i < kQuickAtoms; ++i)
         for (size_t j = 0; j < kQuickAtoms; ++j)
           hostile(pipelineAtom(i, 0) + pipelineAtom(j, 1), false);
@@ -1612,7 +1701,7 @@ int replay(const vr::Args &args)
          c15ref::tailName(ref.tail), ref.feature.c_str());
   for (auto &m : ref.msgs)
     printf("  expected: %s\n", vr::jstr(fromRef(m).show()).c_str());
-  CaseResult r = evalIsolated(stream, ref, seg, 2.0, 30);
+  CaseResult r = evalIsolated(stream, ref, seg, 2.0);
   int n = 0;
   if (r.hang)
   {
@@ -1647,7 +1736,7 @@ int main(int argc, char **argv)
   double deadline = (double)args.getInt("deadline", 0);
   if (deadline > 30)
     deadline -= 15; // leave time to write the reports
-  vr::run_sharded(args, "C15_server", "exploration", /*stall_s=*/15.0, deadline,
+  vr::run_sharded(args, args.get("name", "C15_server"), "exploration", /*stall_s=*/15.0, deadline,
                   [&](const vr::Shard &sh, vr::Report &r)
                   {
                     Explorer ex(args, sh, r);
